@@ -464,15 +464,20 @@ def rrBegin (v : RV) (e : Nat) : Except String RV :=
   else .ok v
 
 /-- members before `upto` that the log shows nothing for: only a CLOSED member may stay silent -/
-def rrSkipTo : Nat → RV → Nat → Except String RV
+def rrSkipTo (atPollEnd : Bool) : Nat → RV → Nat → Except String RV
   | 0, v, _ => .ok v
   | fuel + 1, v, upto =>
     if v.g.pos < upto then
       if v.g.closed v.g.pos then
         match Agg.step v.g .deliver with
-        | some g => rrSkipTo fuel { v with g := g, skipped := true } upto
+        | some g => rrSkipTo atPollEnd fuel { v with g := g, skipped := true } upto
         | none => .error "DIFF model=deliver-not-enabled"
-      else .error s!"VIOL update-missing member={memberName v.g.pos} open-watcher-did-not-get-the-update-of-poll={v.polls - 1}"
+      else if atPollEnd then
+        .error s!"VIOL update-missing member={memberName v.g.pos} open-watcher-did-not-get-the-update-of-poll={v.polls - 1}"
+      else
+        -- a later member applies the call while an earlier open one has not yet: another ORDER than the model's
+        -- (the property does not fix the order; whether the earlier member is served at all is judged at the poll end)
+        .error s!"DIFF model=fan-out-order member={memberName v.g.pos}-before-{memberName upto} poll={v.polls - 1}"
     else .ok v
 
 def rrApply (v : RV) (j : Nat) : Except String RV :=
@@ -484,7 +489,7 @@ def rrApply (v : RV) (j : Nat) : Except String RV :=
     match rrBegin v e with
     | .error x => .error x
     | .ok v =>
-      match rrSkipTo 3 v j with
+      match rrSkipTo false 3 v j with
       | .error x => .error x
       | .ok v =>
         if v.g.pos ≠ j then .error s!"VIOL update-delivered-twice-or-out-of-order member={memberName j} poll={v.polls - 1}"
@@ -519,7 +524,7 @@ def rrToken (versions : List Nat) (v : RV) (t : String) : Except String RV :=
       match rrBegin v e with
       | .error x => .error x
       | .ok v =>
-        match rrSkipTo 3 v 2 with
+        match rrSkipTo true 3 v 2 with
         | .error x => .error x
         | .ok v =>
           match Agg.step v.g .finish with
@@ -615,6 +620,8 @@ def handle : Handler
       let spec := if ok then some (sameSet a b) else none
       verdictEq out (protoPre a == protoPre b) spec "hfile"
     | _, _ => "BAD hex"
-  | _, _ => "BAD c15 line"
+  | _, out =>
+    -- a panic of the code under test on a line of any op is a disagreement with the model, not a malformed line
+    if out.any (fun t => t.startsWith "PANIC") then s!"DIFF model=no-panic got={" ".intercalate out}" else "BAD c15 line"
 
 end GB.C15
